@@ -312,13 +312,18 @@ C19Port(p1, p2) ==
 C01Repeat(pr) ==
     LET me == C19Http(pr, 3, 443, T4) IN
     [me EXCEPT !.id = "C01/http/repeat/" \o pr[1] \o pr[2], !.label = "http/" \o pr[1] \o pr[2] \o "/identical_request_repeated"] @@ [before |-> <<me.run>>]
+\* C06 at request level: the configured delay between probes is kept whatever the timeout is (also a timeout SHORTER than the delay)
+C06Req(pr, d, tmo) ==
+    [C11Req(pr, CHOOSE b \in WrapBases : b.name = "mid", Orders1, 1, 0) EXCEPT !.id = "C06/req/" \o pr[1] \o pr[2] \o (IF pr[3] THEN "6" ELSE "4") \o "/d" \o ToString(d) \o "/t" \o ToString(tmo),
+        !.label = "request/" \o pr[1] \o pr[2] \o "/delay" \o ToString(d) \o "/timeout" \o ToString(tmo), !.run.delay_ms = d, !.run.timeout_ms = tmo]
+C06ReqAll(u) == { C06Req(pr, dt[1], dt[2]) : pr \in {<<"udp", "", FALSE>>, <<"icmp", "", TRUE>>, <<"tcp", "syn", FALSE>>}, dt \in {<<100, 40>>, <<300, 10>>, <<50, 300>>} }
 HistAll(u) == { C19Conc(l) : l \in {0, 20000, 60000} } \cup { C19Port(80, 443), C19Port(443, 80), C19Port(80, 0) }
               \cup { C01Repeat(pr) : pr \in {<<"udp", "", FALSE>>, <<"icmp", "", FALSE>>, <<"tcp", "syn", FALSE>>} }
               \cup { C19Hist(n, w) : n \in {"dual46.test", "dual64.test"}, w \in BOOLEAN } \cup { C20Hist(m) : m \in {"prefer_sack", "sack"} }
               \cup { C16Hist(b) : b \in {1, 40, 300} } \cup { C17Conc(pr, l) : pr \in {<<"icmp", "", FALSE>>, <<"udp", "", FALSE>>}, l \in {0, 30000, 300000} }
 
 ---------------------------------------------------------------------------
-Cases == CASE Gen = "C01" -> C01ReqAll(0) [] Gen = "C05" -> C05All(0) [] Gen = "Hist" -> HistAll(0) [] Gen = "C15" -> C15All(0)
+Cases == CASE Gen = "C06" -> C06ReqAll(0) [] Gen = "C01" -> C01ReqAll(0) [] Gen = "C05" -> C05All(0) [] Gen = "Hist" -> HistAll(0) [] Gen = "C15" -> C15All(0)
            [] Gen = "C11" -> C11All(0)
            [] Gen = "C17" -> C17All(0)
            [] Gen = "C19" -> C19All(0)
